@@ -5,4 +5,6 @@ ROOT="$(cd "$(dirname "$0")" && pwd)"
 export CARGO_NET_OFFLINE=true
 mkdir -p "$ROOT/target" "$ROOT/evidence" "$ROOT/replays"
 cd "$ROOT/harness" && cargo build --release --offline
+# CLI under test (C12); ./check C12 rebuilds it from the working tree on every run
+(cd /repo && cargo build --release --offline --bin xml_schema_generator --target-dir "$ROOT/target/cli")
 echo "setup ok"
